@@ -161,3 +161,313 @@ def c10(tier):
 
 
 REGISTRY["C10"] = c10
+
+
+# ---------------------------------------------------------------------------------------------
+# C12: call graph and in-use set
+# ---------------------------------------------------------------------------------------------
+FN = ["main", "f1", "f2", "f3"]
+
+
+def render_site(pos, callee):
+    e = "%s(1)" % callee
+    return {
+        "stmt": "%s;" % e,
+        "ifcond": "if (%s) a++;" % e,
+        "whilecond": "while (%s == 77) a++;" % e,
+        "arg": "a = w(%s);" % e,
+        "loopbody": "for (X = 0; X < 2; X++) { %s; }" % e,
+        "ternary": "a = b ? %s : 2;" % e,
+        "switchcase": "switch (a) { case 1: %s; break; default: b++; }" % e,
+        "assign": "b = %s + 1;" % e,
+        "ret": "return %s;" % e,
+    }[pos]
+
+
+def render_graph(c):
+    attr = c["attr"]
+    inline = {"inl3": ["f3"], "inl23": ["f2", "f3"], "inl123": ["f1", "f2", "f3"], "isr_inl3": ["f3"]}.get(attr, [])
+    src = {f: [] for f in FN}
+    bodies = {f: [] for f in FN}
+    uses_w = False
+    for s in c["sites"]:
+        if s["pos"] == "none":
+            continue
+        f, g = FN[s["from"]], FN[s["to"]]
+        if s["pos"] == "arg":
+            uses_w = True
+            src[f].append("w")
+        src[f].append(g)
+        pos = s["pos"]
+        if pos == "ret" and any(x.startswith("return") for x in bodies[f]):
+            pos = "stmt"        # only one return per body; a further one is rendered as a plain statement
+        if pos == "ret" and f == "main":
+            pos = "assign"
+        bodies[f].append(render_site(pos, g))
+    text = "unsigned char a, b;\n"
+    if uses_w:
+        text += "char w(char x) { return x; }\n"
+        src["w"] = []
+
+    def fdef(f):
+        b = bodies[f]
+        rets = [x for x in b if x.startswith("return")]
+        b = [x for x in b if not x.startswith("return")] + (rets[:1] if rets else ["return x;"] if f != "main" else [])
+        if f == "main":
+            return "void main() { %s }\n" % " ".join(b)
+        return "%schar %s(char x) { %s }\n" % ("inline " if f in inline else "", f, " ".join(b))
+    if attr == "proto":
+        text += "".join("char %s(char x);\n" % f for f in FN[1:])
+        text += fdef("main") + fdef("f1") + fdef("f2") + fdef("f3")
+    else:
+        text += fdef("f3") + fdef("f2") + fdef("f1")
+        if attr == "unused":
+            text += "char f4(char x) { return f3(x); }\n"
+            src["f4"] = ["f3"]
+        if attr in ("isr", "isr_inl3"):
+            text += "void interrupt isr() { a = f3(2); }\n"
+            src["isr"] = ["f3"]
+        text += fdef("main")
+    roots = ["main"] + (["isr"] if attr in ("isr", "isr_inl3") else [])
+    return text, src, roots
+
+
+def c12(tier):
+    t0 = time.time()
+    pid = "C12"
+    verdict = common.Verdict(pid)
+    d = common.workdir("gen_c12")
+    cfg = os.path.join(d, "GenGraph.cfg")
+    pos = '{"stmt", "ifcond", "arg", "loopbody", "ret"}' if tier == "quick" else '{"stmt", "ifcond", "whilecond", "arg", "loopbody", "ternary", "switchcase", "assign", "ret"}'
+    open(os.path.join(common.SPEC, "MCGenGraph.tla"), "w").write("---- MODULE MCGenGraph ----\nEXTENDS GenGraph\nMCPos == %s\n====\n" % pos)
+    open(cfg, "w").write("CONSTANT Positions <- MCPos\nINIT Init\nNEXT Next\nINVARIANT Emit\nCHECK_DEADLOCK FALSE\n")
+    sim = None if tier == "quick" else "num=200000"
+    res = common.run_tlc("MCGenGraph", cfg=cfg, name="gen_c12", tags={"CASE"}, workers=8, heap="8g", timeout=1500, simulate=sim,
+                         extra=(["-depth", "1", "-seed", str(common.seed())] if sim else None))
+    if not sim:
+        common.require_ok(res, "GenGraph")
+    seen, cases = set(), []
+    for (_, o) in res.lines:
+        k = json.dumps(o, sort_keys=True)
+        if k not in seen:
+            seen.add(k)
+            cases.append(o)
+    cases.sort(key=lambda o: json.dumps(o, sort_keys=True))
+    total = len(cases)
+    rnd = random.Random(common.seed())
+    n = 7000 if tier == "quick" else 60000
+    if len(cases) > n:
+        cases = rnd.sample(cases, n)
+    hc = []
+    for i, c in enumerate(cases):
+        c["_src"], c["_calls"], c["_roots"] = render_graph(c)
+        hc.append(dict(id=i, src=c["_src"], variants=[dict(name="O1", args=["-O1"])]))
+    obs = common.run_harness("compile", hc, "c12")
+    tc = []
+    accepted = rejected = 0
+    reasons = {}
+    for i, (c, ob) in enumerate(zip(cases, obs)):
+        o = ob[0] if ob else {"status": "missing"}
+        if o.get("status") == "err":
+            rejected += 1
+            reasons[o["err"].get("msg")] = reasons.get(o["err"].get("msg"), 0) + 1
+            continue
+        if o.get("status") != "ok":
+            verdict.violation("compiler %s on call-graph program" % o.get("status"), dict(property=pid, source=c["_src"], outcome=o.get("status"), detail=o.get("panic")))
+            continue
+        accepted += 1
+        jsr = {}
+        for f in o["funcs"]:
+            if f.get("lines"):
+                t = [l["op"] for l in f["lines"] if l["k"] == "i" and l["mn"] == "JSR"]
+                if t:
+                    jsr[f["name"]] = t
+        tc.append(dict(id=i, src={k: v for k, v in c["_calls"].items()}, roots=c["_roots"], tree=o["tree"], inuse=o["inuse"], jsr=jsr))
+    if accepted < 100:
+        raise common.ToolError("vacuous: %d accepted (%s)" % (accepted, reasons))
+    d2 = common.workdir("cg_c12")
+    p = os.path.join(d2, "cases.ndjson")
+    with open(p, "w") as f:
+        for t in tc:
+            f.write(json.dumps(t) + "\n")
+    cfg2 = os.path.join(d2, "CallGraph.cfg")
+    open(cfg2, "w").write("INIT Init\nNEXT Next\nINVARIANT Report\nCHECK_DEADLOCK FALSE\n")
+    res2 = common.run_tlc("CallGraph", cfg=cfg2, env={"CASES": p}, name="cg_c12", tags={"CG"}, workers=8, heap="6g")
+    common.require_ok(res2, "CallGraph")
+    byid = {t["id"]: t for t in tc}
+    for (_, o) in res2.lines:
+        c = cases[o["id"]]
+        t = byid[o["id"]]
+        verdict.violation("%s broken for attr=%s sites=%s" % (",".join(o["broken"]), c["attr"], [(s["from"], s["to"], s["pos"]) for s in c["sites"] if s["pos"] != "none"]),
+                          dict(property=pid, broken=o["broken"], source=c["_src"], source_calls=c["_calls"], roots=c["_roots"], published_tree=t["tree"], published_in_use=t["inuse"],
+                               reachable_through_tree=o["reach"], emitted_jsr=t["jsr"]))
+    nonempty = sum(1 for t in tc if any(t["src"].values()))
+    cov = dict(states=res.distinct + res2.distinct, transitions=res.generated + res2.generated, traces_validated_against_impl=len(tc),
+               samples=[dict(source=cases[t["id"]]["_src"], source_calls=t["src"], tree=t["tree"], inuse=t["inuse"]) for t in tc[10:12]],
+               graphs_generated=total, graphs_replayed=len(cases), accepted=accepted, rejected_by_compiler=rejected, reject_reasons=reasons, graphs_with_calls=nonempty,
+               exhaustive=(len(cases) == total),
+               explanation="GenGraph.tla enumerates acyclic call graphs over main,f1,f2,f3 with each call in a syntactic position (statement, condition, argument, loop "
+                           "body, return, ...) and attributes (inline subsets, interrupt handler, unused function, prototypes first); CallGraph.tla checks the published "
+                           "tree and in-use set of the real compiler against the source calls and the emitted JSRs.")
+    common.write_evidence(pid, tier, "model_checking", cov, time.time() - t0, len(verdict.violations), ["one call site per (caller, callee) pair; acyclic graphs"])
+    return verdict.finish()
+
+
+REGISTRY["C12"] = c12
+
+
+# ---------------------------------------------------------------------------------------------
+# C16: compilation is total
+# ---------------------------------------------------------------------------------------------
+_CTOK = re.compile(r'"(?:[^"\\\n]|\\.)*"|\'(?:[^\'\\\n]|\\.)*\'|[A-Za-z_][A-Za-z0-9_]*|0x[0-9a-fA-F]+|\d+|<<=|>>=|\+\+|--|&&|\|\||<<|>>|<=|>=|==|!=|\+=|-=|\*=|/=|&=|\|=|\^=|#[a-z]+|\S')
+MENU = ["if", "else", "while", "for", "do", "switch", "case", "default", "break", "continue", "return", "goto", "inline", "interrupt", "const", "signed", "unsigned",
+        "char", "short", "int", "void", "sizeof", "asm", "load", "store", "strobe", "csleep", "bank1", "superchip", "aligned", "X", "Y",
+        "+", "-", "*", "/", "&", "|", "^", "~", "!", "<", ">", "<=", ">=", "==", "!=", "&&", "||", "<<", ">>", "=", "+=", "-=", "*=", "/=", "<<=", ">>=", "&=", "|=", "^=",
+        "++", "--", "?", ":", ",", ";", "(", ")", "[", "]", "{", "}", "0", "1", "255", "256", "65535", "65536", "4294967296", "99999999999999999999", "0x", "0xFFFFFFFFF", "08", "1.5",
+        "'a'", "''", "'ab'", "'", '"', '"abc"', '"unterminated', "\\", "#", "#if", "#if 1", "#else", "#endif", "#elif 1", "#define A A\nA", "#define F(x) F(x)\nF(1)", "#include", '#include "nofile.h"', "#undef", "#error x", "#ifdef",
+        "undeclared_name", "main", "f()", "main()", "(" * 300, "((((((((((", "/*", "*/", "//", "@", "@0@", "$", "`", "\x00", "\xff", "\t", "\r", "é", "=== ASSEMBLER BEGIN ==="]
+OWN_SEEDS = [
+    "unsigned char a, b; void h() { a++; } char k() { return 7; } void main() { a = k(); h(); X = a; }",
+    "unsigned char a; void w(char x) { a = x; } void main() { Y = w(3); }",
+    "void f(); void main() { f(); }",
+    "char *p; unsigned char a[4]; void main() { p = a; a[X] = p[Y]; csleep(4); }",
+    "const char t[3] = {1, 2, 3}; short s; void main() { s = t[X] << 8; switch (s) { case 1: s++; break; default: s--; } }",
+    "#define N 3\n#if N\nchar v[N];\n#endif\nvoid main() { for (X = 0; X < N; X++) v[X] = 0; }",
+    "unsigned char a; void main() { do { a--; if (a == 3) continue; } while (a); goto l; l: a = 1 ? 2 : 3; }",
+    "inline char f(char x) { return x + 1; } unsigned char a; void main() { a = f(f(2)); strobe(a); }",
+]
+
+
+def repo_test_inputs():
+    """the C sources the repository's own tests compile (read from /repo/src/lib.rs at run time)"""
+    try:
+        txt = open(os.path.join(common.REPO, "src", "lib.rs")).read()
+    except OSError:
+        return []
+    out = []
+    for m in re.finditer(r'let input = "((?:[^"\\]|\\.)*)";', txt, re.S):
+        s = m.group(1)
+        s = s.replace("\\n", "\n").replace('\\"', '"').replace("\\t", "\t").replace("\\\\", "\\")
+        s = re.sub(r"\\\n\s*", "", s)
+        out.append(s)
+    return out
+
+
+def mutate(seedtext, rnd):
+    toks = [(m.start(), m.end()) for m in _CTOK.finditer(seedtext)]
+    if not toks:
+        return seedtext + rnd.choice(MENU), "append"
+    i = rnd.randrange(len(toks))
+    a, b = toks[i]
+    kind = rnd.choice(["delete", "duplicate", "swap", "replace", "replace", "insert", "truncate"])
+    if kind == "delete":
+        return seedtext[:a] + seedtext[b:], kind
+    if kind == "duplicate":
+        return seedtext[:b] + " " + seedtext[a:b] + seedtext[b:], kind
+    if kind == "swap" and i + 1 < len(toks):
+        c, d = toks[i + 1]
+        return seedtext[:a] + seedtext[c:d] + seedtext[b:c] + seedtext[a:b] + seedtext[d:], kind
+    if kind == "insert":
+        return seedtext[:a] + rnd.choice(MENU) + " " + seedtext[a:], kind
+    if kind == "truncate":
+        return seedtext[:b], kind
+    return seedtext[:a] + rnd.choice(MENU) + seedtext[b:], "replace"
+
+
+def c16(tier):
+    t0 = time.time()
+    pid = "C16"
+    verdict = common.Verdict(pid)
+    seeds = repo_test_inputs() + OWN_SEEDS
+    if len(seeds) < 20:
+        raise common.ToolError("could not read the repository's test inputs")
+    rnd = random.Random(common.seed())
+    n = 24000 if tier == "quick" else 400000
+    cases = []
+    for s in seeds:        # the seeds themselves, at both levels
+        cases.append((s, "seed"))
+    # every menu entry replacing / inserted at a few positions of a few seeds (systematic part)
+    for mi, mtok in enumerate(MENU):
+        for k in range(4):
+            s = seeds[(mi * 7 + k * 13) % len(seeds)]
+            toks = [(m.start(), m.end()) for m in _CTOK.finditer(s)]
+            a, b = toks[(mi + 3 * k) % len(toks)]
+            cases.append((s[:a] + mtok + s[b:], "menu-replace"))
+            cases.append((s[:a] + mtok + " " + s[a:], "menu-insert"))
+    while len(cases) < n:
+        s = rnd.choice(seeds)
+        m, kind = mutate(s, rnd)
+        if rnd.random() < 0.15:
+            m, k2 = mutate(m, rnd)
+            kind += "+" + k2
+        cases.append((m, kind))
+    hc = []
+    optsets = [["-O1"], ["-O0"], ["-O1", "-DA=1"], ["-O1", "--insert-code"], ["-O2", "-Wall"]]
+    for i, (src, kind) in enumerate(cases):
+        hc.append(dict(id=i, src=src, variants=[dict(name="v", args=optsets[i % len(optsets)] if i >= len(seeds) else ["-O1"])]))
+    obs = common.run_harness("compile", hc, "c16", deadline_ms=2500)
+    recs = []
+    for i, ((src, kind), ob) in enumerate(zip(cases, obs)):
+        o = ob[0] if ob else {"status": "abort"}
+        nlines = src.count("\n") + 1
+        e = o.get("err", {}) if o.get("status") == "err" else {}
+        recs.append(dict(n=i, status=o.get("status", "abort"), kind=e.get("kind", ""), line=e.get("line") or 0, nlines=nlines,
+                         fileknown=e.get("file") in ("stdin",) if e else False))
+    d = common.workdir("out_c16")
+    p = os.path.join(d, "obs.ndjson")
+    with open(p, "w") as f:
+        for r in recs:
+            f.write(json.dumps(r) + "\n")
+    cfg = os.path.join(d, "Outcome.cfg")
+    open(cfg, "w").write("INIT Init\nNEXT Next\nINVARIANT Report\nCHECK_DEADLOCK FALSE\n")
+    res = common.run_tlc("Outcome", cfg=cfg, env={"OBS": p}, name="out_c16", tags={"BAD"}, workers=1, heap="4g")
+    common.require_ok(res, "Outcome")
+    sites = {}
+    for fd in verdict.findings:
+        for k in fd.get("cases", []):
+            sites[k] = fd["id"]
+    stat = {}
+    for r in recs:
+        stat[r["status"]] = stat.get(r["status"], 0) + 1
+    nbad = 0
+    reported_sites = set()
+    for (_, b) in res.lines:
+        i = b["n"]
+        src, kind = cases[i]
+        o = obs[i][0] if obs[i] else {"status": "abort"}
+        st = o.get("status", "abort")
+        if st == "panic":
+            # identified by source file and panic message (line numbers move with unrelated edits)
+            pm = o.get("panic", "")
+            m = re.search(r"@ (.*):\d+$", pm)
+            site = m.group(1) if m else "?"
+            site = re.sub(r"^.*/(src/.+)$", r"\1", site)
+            site = re.sub(r"^.*/(pest[^/]*)/src/(.+)$", r"\1/\2", site)
+            msg = re.sub(r"\(\d+, \d+\)", "", pm.split(" @ ")[0])
+            msg = re.sub(r"\d+", "N", msg)[:48].strip()
+            key = "panic:%s:%s" % (site, msg)
+        elif st == "err":
+            e = o["err"]
+            key = "badloc:%s" % e.get("msg", "")[:40]
+        else:
+            key = st
+        if key in sites:
+            verdict.attribute(sites[key])
+            continue
+        nbad += 1
+        if key in reported_sites and nbad > 200:
+            continue
+        reported_sites.add(key)
+        verdict.violation("%s [%s] on a %s mutant" % (st, key, kind), dict(property=pid, outcome=st, site=key, detail=o.get("panic") or o.get("err"), source=src, args=hc[i]["variants"][0]["args"], mutation=kind))
+    distinct = len(set(src for src, _ in cases))
+    cov = dict(evaluations=len(cases), distinct_nontrivial=distinct, rule="seed = a C source the repository's tests compile (%d read from src/lib.rs) or one of %d own programs; "
+               "each case applies one (15%%: two) token-level mutation: delete, duplicate, swap, replace from a %d-entry menu, insert, truncate; distinct = different source texts"
+               % (len(seeds) - len(OWN_SEEDS), len(OWN_SEEDS), len(MENU)),
+               samples=[dict(source=cases[i][0], mutation=cases[i][1]) for i in (len(seeds) + 5, len(seeds) + 400, len(cases) - 1)],
+               outcomes=stat, outcomes_rejected_by_Outcome_spec=len(res.lines), attributed_to_known_findings=verdict.known, states=res.distinct,
+               explanation="every recorded outcome is validated by TLC against Outcome.tla (terminal states Ok / located Err only)")
+    common.write_evidence(pid, tier, "exploration", cov, time.time() - t0, len(verdict.violations), ["deadline 2.5 s per compilation counts as non-termination", "8 MB stack as for a main thread"])
+    return verdict.finish(max_print=60)
+
+
+REGISTRY["C16"] = c16
